@@ -152,12 +152,13 @@ PLANS = {
     ),
     'C15': dict(
         module='RucteProps.C15',
-        theorems=['Ructe.C15.spacelike_complete', 'Ructe.C15.layout_irrelevant_at_slot', 'Ructe.C15.comment_complete', 'Ructe.C15.multispace0_complete', 'Ructe.C15.spacelike_total', 'Ructe.C15.pinned_comment_counterexample'],
+        extra_modules=['RucteProps.C15Directives'],
+        theorems=['Ructe.C15.spacelike_complete', 'Ructe.C15.layout_irrelevant_at_slot', 'Ructe.C15.comment_complete', 'Ructe.C15.multispace0_complete', 'Ructe.C15.spacelike_total', 'Ructe.C15.pinned_comment_counterexample', 'Ructe.C15.if_layout_irrelevant', 'Ructe.C15.if_else_layout_irrelevant', 'Ructe.C15.for_layout_irrelevant', 'Ructe.C15.if_name_layout_irrelevant'],
         runs=[dict(suite='parse', mix='structured', n=dict(quick=5000, thorough=50000), projection='text', tags=['C15'])],
         correspondence='generated code, byte for byte, of canonical and perturbed prints of the same source tree vs the model\'s single answer',
         rule='every structured template printed canonically and twice with random admissible layouts (white space, LF, CRLF, tabs, 8 comment shapes incl. `**@` endings) at every slot kind; non-trivial = distinct accepted syntax trees',
         assumptions=[],
-        level_text='Proved: at every layout slot of the grammar any admissible layout is consumed completely and is indistinguishable from any other (spacelike_complete, layout_irrelevant_at_slot, comment_complete, multispace0_complete, spacelike_total, spacelike_sound). The composition over all slots of a whole template is not proved; it is covered by the metamorphic oracle (canonical vs perturbed prints give byte-identical code and the documented tree) + tie on the full text.',
+        level_text='Proved: at every layout slot of the grammar any admissible layout is consumed completely and is indistinguishable from any other (spacelike_complete, layout_irrelevant_at_slot, comment_complete, multispace0_complete, spacelike_total, spacelike_sound). Compositional completeness lemmas for the directives are proved (if_layout_irrelevant, if_else_layout_irrelevant, for_layout_irrelevant, if_name_layout_irrelevant; match / call in C15Calls when present): any admissible layout at the slots of the directive yields the same node. The induction over a whole source tree is not proved; it is covered by the metamorphic oracle (canonical vs perturbed prints give byte-identical code and the documented tree) + tie on the full text.',
         level_note='Trusted: Lean kernel; hand-written model; generator\'s notion of admissible layout.',
         design_ref='DESIGN.md §6 C15',
     ),
@@ -787,8 +788,9 @@ HTTP_TYPES_CONSTANTS = {
     'SVG': 'image/svg+xml', 'WASM': 'application/wasm', 'XML': 'application/xml',
 }
 # suffixes each feature must know (the ones the property names, where the crate has a constant)
-MUST_KNOW = {'mime03': ['css', 'js', 'json', 'png', 'jpg', 'jpeg', 'svg', 'woff', 'woff2'],
-             'http-types': ['css', 'js', 'json', 'png', 'jpg', 'jpeg', 'svg']}
+# the suffixes each feature lists (the rows of its table on the repaired reference tree)
+MUST_KNOW = {'mime03': ['bmp', 'css', 'gif', 'jpg', 'jpeg', 'js', 'jsonp', 'json', 'png', 'svg', 'woff', 'woff2'],
+             'http-types': ['css', 'html', 'htm', 'ico', 'jpg', 'jpeg', 'js', 'jsonp', 'json', 'png', 'svg', 'txt', 'wasm', 'xml']}
 
 
 def mime03_constants():
